@@ -61,6 +61,24 @@ theorem dead_get_none {sm : SlotMap α} (wf : WF sm) {k : Key} (h : Dead sm k) :
     · rw [Slot.rank_of_ne h0] at hr; omega
   · rfl
 
+/-- … or, in ANY map, if the key's generation is not `0` (no `Key` the library hands out has generation `0`) -/
+theorem dead_get_none_of_gen_ne {sm : SlotMap α} {k : Key} (h : Dead sm k) (hk : k.gen ≠ 0) : sm.get k = none := by
+  obtain ⟨s, hs, hr⟩ := h
+  unfold get
+  rw [hs]
+  dsimp only
+  split
+  · rename_i hg
+    rw [Slot.rank_of_ne (by omega)] at hr; omega
+  · rfl
+
+/-- one of the two hypotheses is needed: in an ill-formed map a retired slot may carry a value, and the key of
+    generation `0` reads it although it is `Dead` -/
+theorem dead_get_needs_wf :
+    let sm : SlotMap Unit := { slots := [⟨0, U32MAX, some ()⟩], nextFree := U32MAX, len := 0 }
+    Dead sm ⟨0, 0⟩ ∧ sm.get ⟨0, 0⟩ = some () :=
+  ⟨⟨_, rfl, by decide⟩, rfl⟩
+
 theorem dead_contains_false {sm : SlotMap α} (wf : WF sm) {k : Key} (h : Dead sm k) : sm.contains k = false := by
   unfold contains; rw [dead_get_none wf h]; rfl
 
